@@ -1,6 +1,7 @@
 package c07
 
 import (
+	"fmt"
 	"os"
 	"sort"
 	"strings"
@@ -26,7 +27,23 @@ func Generate(seed uint64, n int, tier, corpusDir string, shard int, out *kit.Ou
 			}
 		}
 	}
-	nSeq := n * 2 / 3
+	// histories with values around the size at which an entry stops fitting the cache (finding F26)
+	nBig := n / 10
+	if nBig < 12 {
+		nBig = 12
+	}
+	for i := 0; i < nBig; i++ {
+		backend := "mem"
+		if i%3 == 2 {
+			backend = "bbolt"
+		}
+		c, err := runSeq(bigHistory(r.Fork(), backend))
+		if err != nil {
+			return err
+		}
+		out.Emit(c)
+	}
+	nSeq := n*2/3 - nBig
 	for i := 0; i < nSeq; i++ {
 		backend := "mem"
 		if i%3 == 2 {
@@ -53,8 +70,12 @@ func Generate(seed uint64, n int, tier, corpusDir string, shard int, out *kit.Ou
 		// programs with a delete (the stale re-fill after a delete was finding F8b, repaired)
 		{Init: 0, Prog: []string{"put:1", "del"}, Readers: [][]string{{"get", "get"}, {"get"}}},
 		{Init: 3, Prog: []string{"del", "ins:4"}, Readers: [][]string{{"get", "get"}, {"ttlget", "get"}}},
+		// programs with a value too big for a cache entry (the entry it left behind was finding F26, repaired)
+		{Init: -1, Prog: []string{"putbig:7"}, Readers: [][]string{{"get", "get"}, {"get", "ttlget"}}},
+		{Init: 1, Prog: []string{"put:2", "putbig:3", "put:4"}, Readers: [][]string{{"get", "get"}, {"ttlget", "get"}}},
+		{Init: 0, Prog: []string{"putbig:1", "del", "putbig:2"}, Readers: [][]string{{"get", "get"}, {"get"}, {"ttlget", "get"}}},
 	}
-	for i := 0; i < n-nSeq; i++ {
+	for i := 0; i < n-nSeq-nBig; i++ {
 		cr := r.Fork()
 		sc := configs[i%len(configs)]
 		sc.Kind = "sched"
@@ -66,6 +87,105 @@ func Generate(seed uint64, n int, tier, corpusDir string, shard int, out *kit.Ou
 		out.Emit(c)
 	}
 	return nil
+}
+
+// cacheMaxEntry: len(pKey)+len(cCols)+8+len(value) at which the cache stops storing the entry and
+// marks the row instead (maxCachedEntrySize of istoragecache = fastcache's chunk size - 4)
+const cacheMaxEntry = 64*1024 - 4
+
+// bigHistory: a sequential history on a few keys of one partition whose values are tiny or lie around
+// the size at which the entry of the key stops fitting the cache (exactly below / at / above the
+// boundary of that key, then 65535, 65536 and 70000 bytes), every value one repeated byte that changes
+// from write to write, with Get / TTLGet / GetBatch before and after every write
+func bigHistory(r *kit.Rng, backend string) *c06.History {
+	pk := kit.Pick(r, []string{"6161", "6162", "ffff"})
+	ccs := []string{"", "01", "6162"}
+	if r.Chance(1, 4) {
+		ccs = []string{"01", "ff", strings.Repeat("78", 40)}
+	}
+	nb := 0
+	val := func(cc string) string {
+		nb++
+		b := fmt.Sprintf("%02x", 1+(nb*37)%250)
+		boundary := cacheMaxEntry - 8 - len(pk)/2 - len(cc)/2 // the smallest value length that is marked
+		switch r.Intn(10) {
+		case 0, 1:
+			return kit.Pick(r, []string{"", "7631", b})
+		case 2:
+			return fmt.Sprintf("%s*%d", b, boundary-1)
+		case 3, 4:
+			return fmt.Sprintf("%s*%d", b, boundary)
+		case 5:
+			return fmt.Sprintf("%s*%d", b, boundary+1)
+		case 6:
+			return fmt.Sprintf("%s*%d", b, kit.Pick(r, []int{65520, 65524}))
+		case 7:
+			return fmt.Sprintf("%s*%d", b, kit.Pick(r, []int{65535, 65536}))
+		default:
+			return fmt.Sprintf("%s*%d", b, 70000)
+		}
+	}
+	cur := map[string]string{} // what the generator believes the row holds (a guess is enough: Cas/Cad may be refused)
+	h := &c06.History{Backend: backend}
+	read := func(cc string) {
+		switch r.Intn(5) {
+		case 0, 1:
+			h.Ops = append(h.Ops, &c06.Op{Op: "Get", PK: pk, CC: cc})
+		case 2, 3:
+			h.Ops = append(h.Ops, &c06.Op{Op: "TTLGet", PK: pk, CC: cc})
+		default:
+			o := &c06.Op{Op: "GetBatch", PK: pk, CCs: []string{cc}}
+			if r.Bool() {
+				o.CCs = append(o.CCs, kit.Pick(r, ccs))
+			}
+			h.Ops = append(h.Ops, o)
+		}
+	}
+	n := 3 + r.Intn(4)
+	for i := 0; i < n; i++ {
+		cc := kit.Pick(r, ccs)
+		if r.Chance(2, 3) {
+			read(cc) // what the cache holds before the write: "missing", a value, the mark, or nothing
+		}
+		switch r.Intn(10) {
+		case 0, 1, 2, 3:
+			v := val(cc)
+			h.Ops = append(h.Ops, &c06.Op{Op: "Put", PK: pk, CC: cc, V: v})
+			cur[cc] = v
+		case 4:
+			v := val(cc)
+			h.Ops = append(h.Ops, &c06.Op{Op: "Ins", PK: pk, CC: cc, V: v, TTL: kit.Pick(r, []int{0, 0, 2})})
+			if _, ok := cur[cc]; !ok {
+				cur[cc] = v
+			}
+		case 5, 6:
+			v := val(cc)
+			h.Ops = append(h.Ops, &c06.Op{Op: "Cas", PK: pk, CC: cc, Old: cur[cc], V: v, TTL: kit.Pick(r, []int{0, 0, 0, 2})})
+			if _, ok := cur[cc]; ok {
+				cur[cc] = v
+			}
+		case 7:
+			h.Ops = append(h.Ops, &c06.Op{Op: "Cad", PK: pk, CC: cc, Old: cur[cc]})
+			delete(cur, cc)
+		default:
+			o := &c06.Op{Op: "PutBatch", PK: pk}
+			for _, c := range ccs[:1+r.Intn(len(ccs))] {
+				v := val(c)
+				o.Items = append(o.Items, [3]string{pk, c, v})
+				cur[c] = v
+			}
+			h.Ops = append(h.Ops, o)
+		}
+		read(cc)
+		if r.Chance(1, 2) {
+			read(kit.Pick(r, ccs))
+		}
+		if r.Chance(1, 6) {
+			h.Ops = append(h.Ops, &c06.Op{Op: "Advance", Ms: kit.Pick(r, []int64{999, 2000})})
+		}
+	}
+	h.Ops = append(h.Ops, &c06.Op{Op: "GetBatch", PK: pk, CCs: ccs}, &c06.Op{Op: "Read", PK: pk})
+	return h
 }
 
 func Replay(path string, out *kit.Out) error {
